@@ -422,20 +422,28 @@ func rulesC05(c *Ctx) {
 					calledOC = true
 				}
 			}
-			casReached, _ := g.MustPass(cv, g.Exits, func(v int) bool {
-				found := false
-				if n := g.Node(v); n != nil {
-					ast.Inspect(n, func(x ast.Node) bool {
-						if ce, ok := x.(*ast.CallExpr); ok {
-							if sl, ok := ast.Unparen(ce.Fun).(*ast.SelectorExpr); ok && sl.Sel.Name == "CompareAndSwap" {
-								found = true
-							}
-						}
-						return true
-					})
+			// the gate of the hook's call (is a hook set? did this caller win the once-flag?) is entered on every path after
+			// conn.Close, and it consists of those two tests only
+			casReached := false
+			for _, call := range f.AllCalls(f.Body, false) {
+				if !f.IsField(call.Fun, oc) {
+					continue
 				}
-				return found
-			})
+				ov := g.VertexOf(call)
+				gate := g.gateOf(ov)
+				nLeaves, _ := g.gateLeaves(ov, true)
+				hasCAS := hasAtom(g.GuardsAt(ov), func(a Atom) bool {
+					ce, isC := a.E.(*ast.CallExpr)
+					if !isC || !a.Val {
+						return false
+					}
+					sl, isS := ast.Unparen(ce.Fun).(*ast.SelectorExpr)
+					return isS && sl.Sel.Name == "CompareAndSwap"
+				})
+				if len(gate) > 0 && hasCAS && nLeaves <= 2 {
+					casReached, _ = g.MustPass(cv, g.Exits, func(v int) bool { return v == gate[0] })
+				}
+			}
 			c.Check(calledOC && casReached, side.label+":onClose-is-called", f, nil, "after conn.Close every path reaches the once-test, and winning it always calls onClose: the owner (Client/Server/HTTP handler) forgets the session")
 			for _, call := range f.AllCalls(f.Body, false) {
 				if f.IsField(call.Fun, oc) {
